@@ -1,7 +1,807 @@
-//! C28: not implemented yet.
+//! C28 (B-tree == ordered map) and C29 (page structure valid after every op).
+//! One engine drives generated op sequences on the real `BTree` over an in-memory `Storage`;
+//! results/enumerations are compared with a `BTreeMap` model (C28) and an invariant walker runs
+//! after every mutating op (C29). `run_engine(a, "C28"|"C29")` reports only its own property.
+use crate::memstore::{MemStore, PAGE};
+use crate::report::{catch, panic_site, Ctx};
+use crate::rng::{fnv, Rng};
 use crate::Args;
+use serde_json::{json, Value};
+use std::collections::{BTreeMap, HashSet};
+use turdb::btree::{BTree, InsertUniqueResult, InteriorNode, LeafNode, INTERIOR_CONTENT_START, INTERIOR_SLOT_SIZE, LEAF_CONTENT_START, SLOT_SIZE};
+use turdb::encoding::varint::varint_len;
+use turdb::storage::{PageHeader, PageType, Storage};
 
-pub fn run(_a: &Args) -> i32 {
-    println!("INCONCLUSIVE property=C28 reason=check not implemented yet");
-    2
+#[derive(Clone, Debug)]
+pub enum Op {
+    Insert(Vec<u8>, Vec<u8>),
+    InsertUnique(Vec<u8>, Vec<u8>),
+    Append(Vec<u8>, Vec<u8>),
+    Update(Vec<u8>, Vec<u8>),
+    Delete(Vec<u8>),
+    Get(Vec<u8>),
+    Seek(Vec<u8>),
+    ScanFwd,
+    ScanBack,
+    Reopen { use_hint: bool },
+}
+
+fn hx(b: &[u8]) -> String {
+    if b.len() > 24 {
+        format!("{}..({}B)", b[..24].iter().map(|x| format!("{:02x}", x)).collect::<String>(), b.len())
+    } else {
+        b.iter().map(|x| format!("{:02x}", x)).collect()
+    }
+}
+
+impl Op {
+    pub fn to_json(&self) -> Value {
+        match self {
+            Op::Insert(k, v) => json!({"op": "insert", "k": hx(k), "vlen": v.len()}),
+            Op::InsertUnique(k, v) => json!({"op": "insert_if_not_exists", "k": hx(k), "vlen": v.len()}),
+            Op::Append(k, v) => json!({"op": "insert_append", "k": hx(k), "vlen": v.len()}),
+            Op::Update(k, v) => json!({"op": "update", "k": hx(k), "vlen": v.len()}),
+            Op::Delete(k) => json!({"op": "delete", "k": hx(k)}),
+            Op::Get(k) => json!({"op": "get", "k": hx(k)}),
+            Op::Seek(k) => json!({"op": "cursor_seek", "k": hx(k)}),
+            Op::ScanFwd => json!({"op": "scan_forward"}),
+            Op::ScanBack => json!({"op": "scan_backward"}),
+            Op::Reopen { use_hint } => json!({"op": "new_btree_instance", "use_hint": use_hint}),
+        }
+    }
+}
+
+/// key-shape styles
+#[derive(Clone, Copy, Debug, PartialEq)]
+pub enum KeyStyle {
+    Random,
+    Sorted,
+    Reverse,
+    EqualPrefix,
+    Large,
+    Mixed,
+}
+
+pub struct Gen {
+    pub rng: Rng,
+    pub style: KeyStyle,
+    pub counter: u64,
+    pub huge: bool,
+}
+
+impl Gen {
+    fn key(&mut self) -> Vec<u8> {
+        self.counter += 1;
+        let style = if self.style == KeyStyle::Mixed {
+            *self.rng.pick(&[KeyStyle::Random, KeyStyle::Sorted, KeyStyle::EqualPrefix, KeyStyle::Large, KeyStyle::Reverse])
+        } else {
+            self.style
+        };
+        match style {
+            KeyStyle::Random | KeyStyle::Mixed => {
+                let l = self.rng.usize(1, 12);
+                // small alphabet so that collisions/neighbours happen
+                (0..l).map(|_| *self.rng.pick(&[0u8, 1, 2, 0x41, 0x42, 0x7f, 0x80, 0xff])).collect()
+            }
+            KeyStyle::Sorted => (self.counter * 3).to_be_bytes().to_vec(),
+            KeyStyle::Reverse => (u64::MAX / 2 - self.counter * 3).to_be_bytes().to_vec(),
+            KeyStyle::EqualPrefix => {
+                let mut k = vec![b'k', b'e', b'y', self.rng.below(3) as u8];
+                k.extend_from_slice(&(self.rng.below(3000) as u16).to_be_bytes());
+                if self.rng.chance(1, 4) {
+                    k.push(self.rng.below(3) as u8);
+                }
+                k
+            }
+            KeyStyle::Large => {
+                let l = self.rng.usize(200, 900);
+                let mut k = vec![b'L'; l];
+                let x = self.rng.below(500) as u16;
+                k[l - 2] = (x >> 8) as u8;
+                k[l - 1] = x as u8;
+                if self.rng.chance(1, 2) {
+                    k[0] = self.rng.below(4) as u8;
+                }
+                k
+            }
+        }
+    }
+    fn value(&mut self) -> Vec<u8> {
+        let r = self.rng.below(100);
+        let l = if r < 50 {
+            self.rng.usize(0, 40)
+        } else if r < 85 {
+            self.rng.usize(100, 900)
+        } else if r < 97 {
+            self.rng.usize(1000, 3500)
+        } else if self.huge {
+            self.rng.usize(5000, 15000)
+        } else {
+            self.rng.usize(3000, 4000)
+        };
+        let b = self.counter as u8;
+        let mut v = vec![b; l];
+        if l >= 8 {
+            v[..8].copy_from_slice(&self.counter.to_le_bytes());
+        }
+        v
+    }
+}
+
+pub struct Outcome {
+    pub c28: Vec<(String, String, Value)>,
+    pub c29: Vec<(String, String, Value)>,
+    pub splits_seen: bool,
+    pub depth: usize,
+    pub leaves: usize,
+    pub ops_done: usize,
+    pub emptied_leaf_seen: bool,
+}
+
+/// structural walk. Returns (depth, leaf pages in key order) or violation (assertion, sig-cause, detail)
+pub fn walk(store: &MemStore, root: u32) -> Result<(usize, Vec<u32>, bool), (String, String, Value)> {
+    let mut seen: HashSet<u32> = HashSet::new();
+    let mut leaves: Vec<u32> = vec![];
+    let mut leaf_depth: Option<usize> = None;
+    let mut emptied = false;
+    // stack of (page, lower bound inclusive, upper bound exclusive, depth)
+    let mut stack: Vec<(u32, Option<Vec<u8>>, Option<Vec<u8>>, usize)> = vec![(root, None, None, 0)];
+    // we need in-order leaves: do recursive DFS left to right using explicit stack in reverse push order
+    while let Some((pg, lo, hi, depth)) = stack.pop() {
+        if depth > 16 {
+            return Err(("depth_bounded".into(), "depth_gt_16".into(), json!({"page": pg})));
+        }
+        if pg >= store.page_count() {
+            return Err(("child_in_range".into(), "child_page_out_of_range".into(), json!({"page": pg, "page_count": store.page_count()})));
+        }
+        if !seen.insert(pg) {
+            return Err(("no_page_reachable_twice".into(), "page_reachable_twice".into(), json!({"page": pg})));
+        }
+        let data = store.page(pg).unwrap();
+        let hdr = PageHeader::from_bytes(data).map_err(|e| ("page_header".to_string(), "header_unreadable".to_string(), json!({"page": pg, "err": e.to_string()})))?;
+        match hdr.page_type() {
+            PageType::BTreeLeaf => {
+                match leaf_depth {
+                    None => leaf_depth = Some(depth),
+                    Some(d) if d != depth => {
+                        return Err(("uniform_leaf_depth".into(), "leaf_depth_differs".into(), json!({"page": pg, "depth": depth, "expected": d})));
+                    }
+                    _ => {}
+                }
+                let leaf = LeafNode::from_page(data).map_err(|e| ("leaf_valid".to_string(), "leaf_from_page_err".to_string(), json!({"page": pg, "err": e.to_string()})))?;
+                let n = leaf.cell_count() as usize;
+                if n == 0 && pg != root {
+                    emptied = true;
+                }
+                let slots_end = LEAF_CONTENT_START + n * SLOT_SIZE;
+                if slots_end > PAGE {
+                    return Err(("areas_inside_page".into(), "leaf_slot_area_past_page".into(), json!({"page": pg, "n": n})));
+                }
+                let mut extents: Vec<(usize, usize)> = vec![];
+                let mut prev: Option<Vec<u8>> = None;
+                for i in 0..n {
+                    let slot = leaf.slot_at(i).map_err(|e| ("leaf_valid".to_string(), "slot_at_err".to_string(), json!({"page": pg, "i": i, "err": e.to_string()})))?;
+                    let off = slot.offset() as usize;
+                    let kl = slot.key_len() as usize;
+                    let key = leaf.key_at(i).map_err(|e| ("areas_inside_page".to_string(), "leaf_key_unreadable".to_string(), json!({"page": pg, "i": i, "err": e.to_string()})))?;
+                    let val = leaf.value_at(i).map_err(|e| ("areas_inside_page".to_string(), "leaf_value_unreadable".to_string(), json!({"page": pg, "i": i, "err": e.to_string()})))?;
+                    let end = off + kl + varint_len(val.len() as u64) + val.len();
+                    if off < slots_end || end > PAGE {
+                        return Err(("areas_inside_page".into(), "leaf_cell_outside_cell_area".into(), json!({"page": pg, "i": i, "off": off, "end": end, "slots_end": slots_end})));
+                    }
+                    extents.push((off, end));
+                    if let Some(p) = &prev {
+                        if p.as_slice() >= key {
+                            return Err(("keys_strictly_increasing".into(), "leaf_keys_not_increasing".into(), json!({"page": pg, "i": i, "prev": hx(p), "key": hx(key)})));
+                        }
+                    }
+                    if let Some(l) = &lo {
+                        if key < l.as_slice() {
+                            return Err(("separators_bound_subtrees".into(), "leaf_key_below_lower_separator".into(), json!({"page": pg, "i": i, "key": hx(key), "lower": hx(l)})));
+                        }
+                    }
+                    if let Some(h) = &hi {
+                        if key >= h.as_slice() {
+                            return Err(("separators_bound_subtrees".into(), "leaf_key_not_below_upper_separator".into(), json!({"page": pg, "i": i, "key": hx(key), "upper": hx(h)})));
+                        }
+                    }
+                    prev = Some(key.to_vec());
+                }
+                extents.sort();
+                for w in extents.windows(2) {
+                    if w[0].1 > w[1].0 {
+                        return Err(("cells_disjoint".into(), "leaf_cells_overlap".into(), json!({"page": pg, "a": [w[0].0, w[0].1], "b": [w[1].0, w[1].1]})));
+                    }
+                }
+                leaves.push(pg);
+            }
+            PageType::BTreeInterior => {
+                let node = InteriorNode::from_page(data).map_err(|e| ("interior_valid".to_string(), "interior_from_page_err".to_string(), json!({"page": pg, "err": e.to_string()})))?;
+                let n = node.cell_count() as usize;
+                let slots_end = INTERIOR_CONTENT_START + n * INTERIOR_SLOT_SIZE;
+                if slots_end > PAGE {
+                    return Err(("areas_inside_page".into(), "interior_slot_area_past_page".into(), json!({"page": pg, "n": n})));
+                }
+                let mut seps: Vec<Vec<u8>> = vec![];
+                let mut children: Vec<u32> = vec![];
+                let mut extents: Vec<(usize, usize)> = vec![];
+                for i in 0..n {
+                    let slot = node.slot_at(i).map_err(|e| ("interior_valid".to_string(), "interior_slot_at_err".to_string(), json!({"page": pg, "i": i, "err": e.to_string()})))?;
+                    let off = slot.offset() as usize;
+                    let kl = slot.key_len() as usize;
+                    if off < slots_end || off + kl > PAGE {
+                        return Err(("areas_inside_page".into(), "interior_cell_outside_cell_area".into(), json!({"page": pg, "i": i, "off": off, "len": kl})));
+                    }
+                    extents.push((off, off + kl));
+                    let key = node.key_at(i).map_err(|e| ("areas_inside_page".to_string(), "interior_key_unreadable".to_string(), json!({"page": pg, "i": i, "err": e.to_string()})))?;
+                    if let Some(p) = seps.last() {
+                        if p.as_slice() >= key {
+                            return Err(("keys_strictly_increasing".into(), "interior_keys_not_increasing".into(), json!({"page": pg, "i": i, "prev": hx(p), "key": hx(key)})));
+                        }
+                    }
+                    if let Some(l) = &lo {
+                        if key < l.as_slice() {
+                            return Err(("separators_bound_subtrees".into(), "separator_below_lower_bound".into(), json!({"page": pg, "i": i})));
+                        }
+                    }
+                    if let Some(h) = &hi {
+                        if key >= h.as_slice() {
+                            return Err(("separators_bound_subtrees".into(), "separator_not_below_upper_bound".into(), json!({"page": pg, "i": i})));
+                        }
+                    }
+                    seps.push(key.to_vec());
+                    children.push(slot.child_page());
+                }
+                extents.sort();
+                for w in extents.windows(2) {
+                    if w[0].1 > w[1].0 {
+                        return Err(("cells_disjoint".into(), "interior_cells_overlap".into(), json!({"page": pg})));
+                    }
+                }
+                children.push(node.right_child());
+                // push in reverse so the leftmost child is processed first
+                for i in (0..children.len()).rev() {
+                    let clo = if i == 0 { lo.clone() } else { Some(seps[i - 1].clone()) };
+                    let chi = if i == n { hi.clone() } else { Some(seps[i].clone()) };
+                    stack.push((children[i], clo, chi, depth + 1));
+                }
+            }
+            other => {
+                return Err(("page_type".into(), "unexpected_page_type".into(), json!({"page": pg, "type": format!("{:?}", other)})));
+            }
+        }
+    }
+    // leaf chain: starting at the leftmost leaf, next_leaf visits exactly `leaves` in order
+    let mut chain = vec![];
+    let mut cur = leaves[0];
+    let mut guard = 0;
+    loop {
+        chain.push(cur);
+        guard += 1;
+        if guard > leaves.len() + 2 {
+            return Err(("leaf_chain".into(), "leaf_chain_longer_than_tree".into(), json!({"chain_prefix": chain.iter().take(20).collect::<Vec<_>>() })));
+        }
+        let data = store.page(cur).unwrap();
+        let leaf = match LeafNode::from_page(data) {
+            Ok(l) => l,
+            Err(e) => return Err(("leaf_chain".into(), "leaf_chain_hits_non_leaf".into(), json!({"page": cur, "err": e.to_string()}))),
+        };
+        let nx = leaf.next_leaf();
+        if nx == 0 {
+            break;
+        }
+        if nx >= store.page_count() {
+            return Err(("leaf_chain".into(), "next_leaf_out_of_range".into(), json!({"page": cur, "next": nx})));
+        }
+        cur = nx;
+    }
+    if chain != leaves {
+        return Err(("leaf_chain".into(), "leaf_chain_differs_from_inorder_leaves".into(), json!({"chain": chain.iter().take(30).collect::<Vec<_>>(), "inorder": leaves.iter().take(30).collect::<Vec<_>>() })));
+    }
+    Ok((leaf_depth.unwrap_or(0), leaves, emptied))
+}
+
+fn scan_forward(bt: &BTree<'_, MemStore>, start: Option<&[u8]>, limit: usize) -> Result<Vec<(Vec<u8>, Vec<u8>)>, String> {
+    let mut out = vec![];
+    let mut c = match start {
+        None => bt.cursor_first().map_err(|e| e.to_string())?,
+        Some(k) => bt.cursor_seek(k).map_err(|e| e.to_string())?,
+    };
+    let mut steps = 0;
+    while c.valid() {
+        out.push((c.key().map_err(|e| e.to_string())?.to_vec(), c.value().map_err(|e| e.to_string())?.to_vec()));
+        steps += 1;
+        if steps > limit {
+            return Err("cursor did not terminate within model size + slack".into());
+        }
+        if !c.advance().map_err(|e| e.to_string())? {
+            break;
+        }
+    }
+    Ok(out)
+}
+
+fn scan_backward(bt: &BTree<'_, MemStore>, limit: usize) -> Result<Vec<(Vec<u8>, Vec<u8>)>, String> {
+    let mut out = vec![];
+    let mut c = bt.cursor_last().map_err(|e| e.to_string())?;
+    let mut steps = 0;
+    while c.valid() {
+        out.push((c.key().map_err(|e| e.to_string())?.to_vec(), c.value().map_err(|e| e.to_string())?.to_vec()));
+        steps += 1;
+        if steps > limit {
+            return Err("cursor did not terminate within model size + slack".into());
+        }
+        if !c.prev().map_err(|e| e.to_string())? {
+            break;
+        }
+    }
+    Ok(out)
+}
+
+fn first_diff(a: &[(Vec<u8>, Vec<u8>)], b: &[(&Vec<u8>, &Vec<u8>)]) -> Value {
+    let n = a.len().min(b.len());
+    for i in 0..n {
+        if &a[i].0 != b[i].0 || &a[i].1 != b[i].1 {
+            return json!({"index": i, "got_key": hx(&a[i].0), "want_key": hx(b[i].0), "value_equal": &a[i].1 == b[i].1, "got_len": a.len(), "want_len": b.len()});
+        }
+    }
+    json!({"index": n, "got_len": a.len(), "want_len": b.len()})
+}
+
+/// Execute one op sequence. `stop_on_first`: stop at the first violation of either property.
+pub fn execute(ops: &[Op]) -> Outcome {
+    let mut store = MemStore::new(2);
+    let mut root: u32 = 1;
+    let mut hint: Option<u32> = None;
+    let mut use_hint = false;
+    let mut model: BTreeMap<Vec<u8>, Vec<u8>> = BTreeMap::new();
+    let mut out = Outcome { c28: vec![], c29: vec![], splits_seen: false, depth: 0, leaves: 0, ops_done: 0, emptied_leaf_seen: false };
+    {
+        let r = catch(|| BTree::create(&mut store, root).map(|_| ()));
+        if !matches!(r, Ok(Ok(()))) {
+            out.c28.push(("create".into(), "create_failed".into(), json!({"r": format!("{:?}", r.map(|x| x.map_err(|e| e.to_string())))})));
+            return out;
+        }
+    }
+    let mut stale = false;
+    for (i, op) in ops.iter().enumerate() {
+        out.ops_done = i + 1;
+        let mut mutated = false;
+        let tag = |s: &str| -> String {
+            // hint state is part of the cause signature (hint-related defects are distinct defects)
+            format!("{}{}", s, if use_hint { if stale { "/stale_hint" } else { "/hint" } } else { "" })
+        };
+        if let Op::Reopen { use_hint: u } = op {
+            use_hint = *u;
+            continue;
+        }
+        let h = if use_hint { hint } else { None };
+        // every op runs on a fresh BTree instance carrying root (+hint) like the database does
+        let res: Result<Result<(), (String, String, Value)>, String> = catch(|| {
+            let mut bt = BTree::with_rightmost_hint(&mut store, root, h).map_err(|e| ("instance".to_string(), "with_rightmost_hint_err".to_string(), json!({"err": e.to_string()})))?;
+            let r = (|| -> Result<(), (String, String, Value)> {
+                match op {
+                    Op::Insert(k, v) => {
+                        let existed = model.contains_key(k);
+                        match bt.insert(k, v) {
+                            Ok(()) => {
+                                // plain insert of an existing key: accept map-insert semantics (overwrite) only
+                                model.insert(k.clone(), v.clone());
+                                if existed {
+                                    // verify via get below (generic post-check)
+                                }
+                            }
+                            Err(e) => {
+                                if !existed {
+                                    let c = if e.to_string().contains("not enough free space") { "split_no_space".to_string() } else { tag("insert_new_key_err") };
+                                    return Err(("insert_ok".into(), c, json!({"key": hx(k), "vlen": v.len(), "err": e.to_string()})));
+                                }
+                            }
+                        }
+                        mutated = true;
+                    }
+                    Op::InsertUnique(k, v) => {
+                        let existed = model.contains_key(k);
+                        match bt.insert_if_not_exists(k, v) {
+                            Ok(InsertUniqueResult::Inserted) => {
+                                if existed {
+                                    return Err(("insert_if_absent".into(), tag("inserted_although_present"), json!({"key": hx(k)})));
+                                }
+                                model.insert(k.clone(), v.clone());
+                            }
+                            Ok(InsertUniqueResult::Duplicate(hd)) => {
+                                if !existed {
+                                    return Err(("insert_if_absent".into(), tag("duplicate_although_absent"), json!({"key": hx(k)})));
+                                }
+                                let gk = bt.get_key(&hd).map(|x| x.to_vec()).map_err(|e| e.to_string());
+                                if gk.as_ref().ok() != Some(k) {
+                                    return Err(("insert_if_absent".into(), tag("duplicate_handle_wrong_key"), json!({"key": hx(k), "handle_key": format!("{:?}", gk.map(|x| hx(&x)))})));
+                                }
+                            }
+                            Err(e) => {
+                                let c = if !existed && e.to_string().contains("not enough free space") { "split_no_space".to_string() } else { tag("insert_if_not_exists_err") };
+                                return Err(("insert_if_absent".into(), c, json!({"key": hx(k), "existed": existed, "err": e.to_string()})));
+                            }
+                        }
+                        mutated = true;
+                    }
+                    Op::Append(k, v) => {
+                        // precondition: k > every stored key
+                        if model.keys().next_back().map(|m| k > m).unwrap_or(true) {
+                            match bt.insert_append(k, v) {
+                                Ok(()) => {
+                                    model.insert(k.clone(), v.clone());
+                                }
+                                Err(e) => {
+                                    let c = if e.to_string().contains("not enough free space") { "split_no_space".to_string() } else { tag("insert_append_err") };
+                                    return Err(("append_ok".into(), c, json!({"key": hx(k), "err": e.to_string()})));
+                                }
+                            }
+                            mutated = true;
+                        }
+                    }
+                    Op::Update(k, v) => {
+                        let existed = model.contains_key(k);
+                        match bt.update(k, v) {
+                            Ok(true) => {
+                                if !existed {
+                                    return Err(("update".into(), tag("update_true_for_absent_key"), json!({"key": hx(k)})));
+                                }
+                                model.insert(k.clone(), v.clone());
+                            }
+                            Ok(false) => {
+                                // absent key, or "does not fit in place" (caller falls back to delete+insert): no change
+                            }
+                            Err(e) => {
+                                return Err(("update".into(), tag("update_err"), json!({"key": hx(k), "existed": existed, "err": e.to_string()})));
+                            }
+                        }
+                        mutated = true;
+                    }
+                    Op::Delete(k) => {
+                        let existed = model.contains_key(k);
+                        match bt.delete(k) {
+                            Ok(b) => {
+                                if b != existed {
+                                    return Err(("delete_result".into(), tag(if existed { "delete_false_for_present_key" } else { "delete_true_for_absent_key" }), json!({"key": hx(k)})));
+                                }
+                                model.remove(k);
+                            }
+                            Err(e) => {
+                                return Err(("delete_result".into(), tag("delete_err"), json!({"key": hx(k), "err": e.to_string()})));
+                            }
+                        }
+                        mutated = true;
+                    }
+                    Op::Get(k) => {
+                        let want = model.get(k);
+                        match bt.get(k) {
+                            Ok(g) => {
+                                if g.map(|x| x.to_vec()).as_ref() != want {
+                                    return Err(("lookup".into(), tag(if want.is_some() { "get_misses_present_key" } else { "get_finds_absent_key" }), json!({"key": hx(k)})));
+                                }
+                            }
+                            Err(e) => return Err(("lookup".into(), tag("get_err"), json!({"key": hx(k), "err": e.to_string()}))),
+                        }
+                        match bt.search(k) {
+                            Ok(s) => {
+                                if s.is_some() != want.is_some() {
+                                    return Err(("lookup".into(), tag("search_disagrees"), json!({"key": hx(k)})));
+                                }
+                            }
+                            Err(e) => return Err(("lookup".into(), tag("search_err"), json!({"key": hx(k), "err": e.to_string()}))),
+                        }
+                    }
+                    Op::Seek(k) => {
+                        let want: Vec<(&Vec<u8>, &Vec<u8>)> = model.range(k.clone()..).collect();
+                        match scan_forward(&bt, Some(k), model.len() + 10) {
+                            Ok(got) => {
+                                if got.len() != want.len() || got.iter().zip(want.iter()).any(|(g, w)| &g.0 != w.0 || &g.1 != w.1) {
+                                    return Err(("cursor_seek_enumerates".into(), tag("seek_scan_differs"), json!({"seek": hx(k), "diff": first_diff(&got, &want)})));
+                                }
+                            }
+                            Err(e) => return Err(("cursor_seek_enumerates".into(), tag("seek_scan_err"), json!({"seek": hx(k), "err": e}))),
+                        }
+                    }
+                    Op::ScanFwd => {
+                        let want: Vec<(&Vec<u8>, &Vec<u8>)> = model.iter().collect();
+                        match scan_forward(&bt, None, model.len() + 10) {
+                            Ok(got) => {
+                                if got.len() != want.len() || got.iter().zip(want.iter()).any(|(g, w)| &g.0 != w.0 || &g.1 != w.1) {
+                                    return Err(("cursor_first_enumerates".into(), tag("forward_scan_differs"), json!({"diff": first_diff(&got, &want)})));
+                                }
+                            }
+                            Err(e) => return Err(("cursor_first_enumerates".into(), tag("forward_scan_err"), json!({"err": e}))),
+                        }
+                    }
+                    Op::ScanBack => {
+                        let want: Vec<(&Vec<u8>, &Vec<u8>)> = model.iter().rev().collect();
+                        match scan_backward(&bt, model.len() + 10) {
+                            Ok(got) => {
+                                if got.len() != want.len() || got.iter().zip(want.iter()).any(|(g, w)| &g.0 != w.0 || &g.1 != w.1) {
+                                    return Err(("cursor_last_enumerates".into(), tag("backward_scan_differs"), json!({"diff": first_diff(&got, &want)})));
+                                }
+                            }
+                            Err(e) => return Err(("cursor_last_enumerates".into(), tag("backward_scan_err"), json!({"err": e}))),
+                        }
+                    }
+                    Op::Reopen { .. } => {}
+                }
+                Ok(())
+            })();
+            root = bt.root_page();
+            let nh = bt.rightmost_hint();
+            if nh.is_some() {
+                hint = nh;
+            }
+            r
+        });
+        match res {
+            Err(p) => {
+                out.c28.push(("no_panic".into(), tag(&format!("panic/{}", panic_site(&p).rsplit('/').next().unwrap_or(""))), json!({"op_index": i, "op": op.to_json(), "panic": p})));
+                break;
+            }
+            Ok(Err((a, s, mut d))) => {
+                d["op_index"] = json!(i);
+                d["op"] = op.to_json();
+                let c28cause = s.clone();
+                out.c28.push((a, s, d));
+                if let Ok(Err((a, s, mut d))) = catch(|| walk(&store, root)) {
+                    d["op_index"] = json!(i);
+                    d["after_failed_op"] = op.to_json();
+                    out.c29.push((a, format!("{}/after_{}", s, c28cause), d));
+                }
+                break;
+            }
+            Ok(Ok(())) => {}
+        }
+        if mutated {
+            // post-check: the touched key reads back as the model says
+            let k = match op {
+                Op::Insert(k, _) | Op::InsertUnique(k, _) | Op::Append(k, _) | Op::Update(k, _) | Op::Delete(k) => Some(k),
+                _ => None,
+            };
+            if let Some(k) = k {
+                let want = model.get(k).cloned();
+                let r = catch(|| {
+                    let bt = BTree::new(&mut store, root).map_err(|e| e.to_string())?;
+                    bt.get(k).map(|x| x.map(|y| y.to_vec())).map_err(|e| e.to_string())
+                });
+                match r {
+                    Ok(Ok(g)) if g == want => {}
+                    other => {
+                        out.c28.push(("read_your_write".into(), tag(if want.is_some() { "written_key_not_readable" } else { "deleted_key_still_readable" }), json!({"op_index": i, "op": op.to_json(), "got": format!("{:?}", other.map(|x| x.map(|y| y.map(|z| z.len()))))})));
+                        break;
+                    }
+                }
+            }
+            // C29 walker after every mutating op
+            match catch(|| walk(&store, root)) {
+                Ok(Ok((depth, leaves, emptied))) => {
+                    out.depth = out.depth.max(depth);
+                    out.leaves = out.leaves.max(leaves.len());
+                    if leaves.len() > 1 {
+                        out.splits_seen = true;
+                    }
+                    out.emptied_leaf_seen |= emptied;
+                }
+                Ok(Err((a, s, mut d))) => {
+                    d["op_index"] = json!(i);
+                    d["op"] = op.to_json();
+                    out.c29.push((a, tag(&s), d));
+                    break;
+                }
+                Err(p) => {
+                    out.c29.push(("walker_no_panic".into(), tag(&format!("walker_panic/{}", panic_site(&p).rsplit('/').next().unwrap_or(""))), json!({"op_index": i, "panic": p})));
+                    break;
+                }
+            }
+            let _ = stale;
+        }
+    }
+    let _ = &mut stale;
+    out
+}
+
+pub fn gen_sequence(rng: &mut Rng, max_ops: usize, miri: bool) -> (Vec<Op>, KeyStyle, bool) {
+    let style = *rng.pick(&[KeyStyle::Random, KeyStyle::Sorted, KeyStyle::Reverse, KeyStyle::EqualPrefix, KeyStyle::Large, KeyStyle::Mixed, KeyStyle::EqualPrefix, KeyStyle::Sorted]);
+    let huge = rng.chance(1, 10);
+    let mut g = Gen { rng: Rng::new(rng.next()), style, counter: 0, huge };
+    let n = if miri { rng.usize(20, max_ops) } else { rng.usize(max_ops / 4, max_ops) };
+    let mut ops = vec![];
+    let mut known: Vec<Vec<u8>> = vec![];
+    let use_hint = rng.chance(1, 2);
+    ops.push(Op::Reopen { use_hint });
+    // phase weights: build-up, churn, drain (emptying whole leaves), rebuild
+    let drain_at = n * 6 / 10;
+    let rebuild_at = n * 8 / 10;
+    let drains = rng.chance(2, 3);
+    let mut append_mode = style == KeyStyle::Sorted && rng.chance(1, 2);
+    for i in 0..n {
+        let phase_drain = drains && i >= drain_at && i < rebuild_at;
+        let r = rng.below(100);
+        let pick_known = |rng: &mut Rng, known: &Vec<Vec<u8>>, g: &mut Gen| -> Vec<u8> {
+            if !known.is_empty() && rng.chance(9, 10) {
+                rng.pick(known).clone()
+            } else {
+                g.key()
+            }
+        };
+        if phase_drain {
+            if r < 75 {
+                // delete contiguous ranges to empty whole leaves
+                if !known.is_empty() {
+                    let idx = rng.below(known.len() as u64) as usize;
+                    let k = known.swap_remove(idx);
+                    ops.push(Op::Delete(k));
+                }
+            } else if r < 85 {
+                ops.push(Op::ScanFwd);
+            } else if r < 92 {
+                ops.push(Op::ScanBack);
+            } else {
+                let k = pick_known(rng, &known, &mut g);
+                ops.push(Op::Seek(k));
+            }
+            if i == drain_at && rng.chance(1, 2) {
+                known.sort();
+                // drain from the high end first (empties the rightmost leaf) or low end
+                if rng.chance(1, 2) {
+                    known.reverse();
+                }
+                // deleting in order: emulate by popping from the end
+                let take = known.len() * rng.usize(5, 10) / 10;
+                for _ in 0..take {
+                    if let Some(k) = known.pop() {
+                        ops.push(Op::Delete(k));
+                    }
+                }
+                ops.push(Op::ScanFwd);
+                ops.push(Op::ScanBack);
+            }
+            continue;
+        }
+        if r < 45 {
+            let k = g.key();
+            let v = g.value();
+            known.push(k.clone());
+            if append_mode {
+                ops.push(Op::Append(k, v));
+            } else if rng.chance(1, 3) {
+                ops.push(Op::InsertUnique(k, v));
+            } else {
+                ops.push(Op::Insert(k, v));
+            }
+        } else if r < 55 {
+            let k = pick_known(rng, &known, &mut g);
+            let v = g.value();
+            ops.push(Op::Update(k, v));
+        } else if r < 67 {
+            let k = pick_known(rng, &known, &mut g);
+            ops.push(Op::Delete(k));
+        } else if r < 80 {
+            let k = pick_known(rng, &known, &mut g);
+            ops.push(Op::Get(k));
+        } else if r < 85 {
+            let k = pick_known(rng, &known, &mut g);
+            ops.push(Op::Seek(k));
+        } else if r < 90 {
+            ops.push(Op::ScanFwd);
+        } else if r < 94 {
+            ops.push(Op::ScanBack);
+        } else if r < 97 {
+            ops.push(Op::Reopen { use_hint: rng.chance(1, 2) });
+        } else {
+            // re-insert an existing key through insert_if_not_exists
+            let k = pick_known(rng, &known, &mut g);
+            let v = g.value();
+            ops.push(Op::InsertUnique(k, v));
+            append_mode = false;
+        }
+    }
+    ops.push(Op::ScanFwd);
+    ops.push(Op::ScanBack);
+    (ops, style, huge)
+}
+
+/// ddmin-lite: drop chunks of ops while the same signature still fires
+pub fn shrink(ops: &[Op], prop: &str, sig: &str) -> Vec<Op> {
+    let fires = |o: &[Op]| -> bool {
+        let out = execute(o);
+        let v = if prop == "C28" { &out.c28 } else { &out.c29 };
+        v.iter().any(|(_, s, _)| s == sig)
+    };
+    let mut cur: Vec<Op> = ops.to_vec();
+    let mut chunk = cur.len() / 2;
+    let mut budget = 250;
+    while chunk >= 1 && budget > 0 {
+        let mut i = 0;
+        let mut progressed = false;
+        while i < cur.len() && budget > 0 {
+            let end = (i + chunk).min(cur.len());
+            let mut cand = cur[..i].to_vec();
+            cand.extend_from_slice(&cur[end..]);
+            budget -= 1;
+            if !cand.is_empty() && fires(&cand) {
+                cur = cand;
+                progressed = true;
+            } else {
+                i += chunk;
+            }
+        }
+        if !progressed || chunk == 1 {
+            if chunk == 1 {
+                break;
+            }
+        }
+        chunk /= 2;
+    }
+    cur
+}
+
+pub fn run_engine(a: &Args, prop: &'static str) -> i32 {
+    let miri = cfg!(miri);
+    let rule = "generated op sequences (insert / insert_if_not_exists / insert_append / update / delete / get / cursor seek / forward+backward scans / new BTree instance with or without carried rightmost hint) over key styles random, sorted, reverse, equal-4-byte-prefix, large keys, mixed; phases build-up -> churn -> drain (deleting whole key ranges so leaves empty) -> rebuild. Each op runs on a fresh BTree instance carrying root page and hint as the database does. distinct_nontrivial = distinct sequences (hash of ops) in which the tree reached >= 2 leaves (a split happened)";
+    let mut ctx = Ctx::new(prop, &a.tier, a.seed, "exploration", rule);
+    let quick = ctx.quick();
+    let (nseq, max_ops) = if miri { (3, 120) } else if quick { (1500, 500) } else { (12000, 700) };
+    let threads = if miri { 1 } else { 16 };
+    let seed = a.seed;
+    let results = std::sync::Mutex::new(Vec::new());
+    let next = std::sync::atomic::AtomicUsize::new(0);
+    std::thread::scope(|s| {
+        for _ in 0..threads {
+            s.spawn(|| loop {
+                let i = next.fetch_add(1, std::sync::atomic::Ordering::SeqCst);
+                if i >= nseq {
+                    break;
+                }
+                let mut rng = Rng::derive(seed, 2800 + i as u64);
+                let (ops, style, huge) = gen_sequence(&mut rng, max_ops, miri);
+                let out = execute(&ops);
+                results.lock().unwrap().push((i, ops, style, huge, out));
+            });
+        }
+    });
+    let mut results = results.into_inner().unwrap();
+    results.sort_by_key(|r| r.0);
+    let mut shrunk_sigs: HashSet<String> = HashSet::new();
+    for (i, ops, style, huge, out) in results {
+        ctx.eval();
+        ctx.count("ops_executed", out.ops_done as u64);
+        if out.splits_seen {
+            let h = fnv(format!("{:?}", ops.iter().map(|o| o.to_json().to_string()).collect::<Vec<_>>()).as_bytes());
+            ctx.nontrivial(h);
+        }
+        if out.depth >= 2 {
+            ctx.count("sequences_with_depth_ge_2", 1);
+        }
+        if out.emptied_leaf_seen {
+            ctx.count("sequences_with_emptied_nonroot_leaf", 1);
+        }
+        ctx.count(&format!("style_{:?}", style), 1);
+        if i < 2 {
+            ctx.sample(json!({"sequence": i, "style": format!("{:?}", style), "huge_values": huge, "n_ops": ops.len(), "first_ops": ops.iter().take(12).map(|o| o.to_json()).collect::<Vec<_>>(), "max_leaves": out.leaves, "depth": out.depth}));
+        }
+        let mine = if prop == "C28" { &out.c28 } else { &out.c29 };
+        let other = if prop == "C28" { &out.c29 } else { &out.c28 };
+        ctx.count("other_property_violations_seen", other.len() as u64);
+        for (assertion, cause, detail) in mine {
+            let sig = format!("{}/{}/{}{}", prop, assertion, cause, if huge { "/huge_cells" } else { "" });
+            let mut ops_json: Vec<Value> = vec![];
+            if ctx.is_known(&sig).is_none() && shrunk_sigs.insert(sig.clone()) && !miri {
+                // shrink the first witness of each new signature
+                let small = shrink(&ops[..out.ops_done.min(ops.len())], prop, cause);
+                ops_json = small.iter().map(|o| o.to_json()).collect();
+            }
+            ctx.violation(assertion, &sig, json!({"sequence": i, "style": format!("{:?}", style), "detail": detail, "shrunk_ops": ops_json, "replay": format!("tv {} --tier {} --seed {} (sequence {})", prop, ctx.tier, seed, i)}));
+        }
+    }
+    ctx.assumptions.push("in-memory Storage implementation (MemStore) stands in for MmapStorage; BTree is generic over Storage".into());
+    ctx.assumptions.push("update() returning Ok(false) for a present key whose new value does not fit is accepted as 'no change' (callers fall back to delete+insert)".into());
+    ctx.finish()
+}
+
+pub fn run(a: &Args) -> i32 {
+    run_engine(a, "C28")
 }
